@@ -126,3 +126,11 @@ func Close[T any](ch chan T) {
 	sched.NoteClose()
 	close(ch)
 }
+
+// Start is the first statement of every `go func() { ... }()` in the instrumented packages: a scheduling
+// point, so that a new goroutine does not run a single step of the code under test before the explorer says so.
+func Start() {
+	if sched.Active() {
+		sched.Point(sched.OpYield, nil, "go")
+	}
+}
